@@ -146,6 +146,7 @@ fn examine(h: &History, r: &mut Restarted, allowed: &BTreeSet<usize>, rep: &mut 
     // (1) tip
     if o.tip_id == 0 && o.tip_hash == [0; 32] {
         rep.outcome("restart:empty-chain");
+        rep.distinct.insert(format!("{}:empty", h.label));
         if !allowed.is_empty() && clean.is_some() {
             rep.violate(&format!("{}/clean-restart-lost-the-chain", keyp), "after a clean shutdown the restarted node has no chain".into(), case.clone());
         }
@@ -157,6 +158,8 @@ fn examine(h: &History, r: &mut Restarted, allowed: &BTreeSet<usize>, rep: &mut 
         rep.violate(&format!("{}/tip-unknown", keyp), format!("restarted tip {}:{} is not a delivered block", o.tip_id, hx(&o.tip_hash[..6])), case.clone());
         return;
     };
+    // distinct observed restart results: (history, restarted tip, stored blocks)
+    rep.distinct.insert(format!("{}:{}:{}", h.label, w.blocks[t].label, o.blocks.len()));
     if !allowed.contains(&t) {
         rep.violate(&format!("{}/tip-not-allowed", keyp), format!("restarted tip {} was neither the pre-crash tip, an ancestor of it, nor a block known before the crash", w.blocks[t].label), case.clone());
     }
